@@ -24,7 +24,11 @@ func (s *sim) check12(addressed map[string]tuple, ctx string) {
 		d := s.observe(x)
 		id := x.id()
 		if _, ok := addressed[id]; !ok && d != s.cache[id] {
-			s.c.Violate(s.prop("C12"), "other-key-changed", "", "%s: %s %q was not addressed but changed from %s to %s", ctx, x.typ, x.key, s.cache[id], d)
+			key := ""
+			if s.envKey != "" && (x.typ == "kv" || x.typ == "hash") {
+				key = s.envKey
+			}
+			s.c.Violate(s.prop("C12"), "other-key-changed", key, "%s: %s %q was not addressed but changed from %s to %s", ctx, x.typ, x.key, s.cache[id], d)
 		}
 		s.cache[id] = d
 	}
